@@ -179,110 +179,136 @@ def rule_bc(ctx: Context, R: Reporter, base: ClassInfo, subs: List[ClassInfo]):
                 R.check("C03.c", f"{m.short}: the correction decreases with the current state's quadratic form", total < 0, m, rn.stmt,
                         msg=f"{m.short}: the correction is {'increasing' if total > 0 else 'constant'} in the Mahalanobis form of the current state", key="orientation-current")
     R.floor("C03.b", "non-trivial correction returns", n_pairs, 1)
-    # the shared accept step
-    run = base.methods.get("run")
-    if run is None:
-        raise AnalysisError("C03.c: kernel run not found")
-    flow = flow_of(run.node)
-    cfg = flow.cfg
+    # the shared accept step (possibly split over extracted helper methods of the kernel base)
+    from ..chain import defs_of, enter_call, unique_def
+
+    UNI = ("numpy.random.rand", "numpy.random.random", "numpy.random.uniform", "numpy.random.random_sample")
     masks = []
-    for nd in cfg.stmt_nodes():
-        if nd.kind == "stmt" and isinstance(nd.stmt, ast.Assign) and isinstance(nd.stmt.value, ast.Compare) and len(nd.stmt.value.ops) == 1:
-            l, r = nd.stmt.value.left, nd.stmt.value.comparators[0]
-            for (a, b, flip) in ((l, r, False), (r, l, True)):
-                if isinstance(a, ast.Name):
-                    ds = flow.reaching(nd, a.id)
-                    if ds and all(d.value is not None and isinstance(d.value, ast.Call) and (ctx.res.external_name(run, d.value) or "") in ("numpy.random.rand", "numpy.random.random", "numpy.random.uniform", "numpy.random.random_sample") for d in ds):
-                        masks.append((nd, a, b, flip, ds))
+    for m in base.methods.values():
+        flow = flow_of(m.node)
+        for nd in flow.cfg.stmt_nodes():
+            if nd.kind == "stmt" and isinstance(nd.stmt, ast.Assign) and isinstance(nd.stmt.value, ast.Compare) and len(nd.stmt.value.ops) == 1:
+                l, r = nd.stmt.value.left, nd.stmt.value.comparators[0]
+                for (a, b, flip) in ((l, r, False), (r, l, True)):
+                    if isinstance(a, ast.Name):
+                        links = defs_of(ctx, m, nd, a.id)
+                        if links and all(lk.value is not None and isinstance(lk.value, ast.Call) and (ctx.res.external_name(lk.fi, lk.value) or "") in UNI for lk in links):
+                            masks.append((m, nd, a, b, flip, links))
     R.floor("C03.c", "accept masks (uniform vs acceptance probability)", len(masks), 1)
-    for (nd, uni, alpha, flip, ds) in masks:
+    for (m, nd, uni, alpha, flip, links) in masks:
         op = nd.stmt.value.ops[0]
         strict_lt = (isinstance(op, ast.Lt) and not flip) or (isinstance(op, ast.Gt) and flip)
-        R.check("C03.c", "accept iff uniform < alpha (strict, so alpha = 0 is never accepted)", strict_lt, run, nd.stmt,
-                msg=f"{run.short}: `{unparse(nd.stmt)}` is not `uniform < alpha`: a flipped or non-strict comparison accepts with the wrong probability (or accepts -inf likelihoods)", key="accept-comparison")
-        # fresh uniform of length n_walkers inside the loop
-        fresh = all(d.node is not None and d.node.loops == nd.loops and nd.loops for d in ds) and all(norm_text(d.value.args[0]) in ("self.n_walkers", "len(self.u)", "self.u.shape[0]") for d in ds if d.value.args)
-        R.check("C03.c", "the uniform is drawn fresh in every step, one per walker", fresh, run, ds[0].stmt,
-                msg=f"{run.short}: the comparison uniform `{unparse(ds[0].stmt)}` is not drawn per step with one value per walker", key="fresh-uniform")
-        # alpha: resolve the chain of definitions: minimum(1, exp(beta*(logl' - logl) + corr)) (nan_to_num allowed)
-        if not isinstance(alpha, ast.Name):
-            raise AnalysisError("C03.c: acceptance probability is not a named value")
-        chain = _alpha_chain(run, flow, nd, alpha.id)
-        R.check("C03.c", "alpha = min(1, exp(beta * (logL' - logL) + correction))", chain["ok"], run, nd.stmt,
-                msg=f"{run.short}: acceptance probability has the shape {chain['shape']}; {chain['why']}", witness=chain, key="alpha-shape")
+        R.check("C03.c", "accept iff uniform < alpha (strict, so alpha = 0 is never accepted)", strict_lt, m, nd.stmt,
+                msg=f"{m.short}: `{unparse(nd.stmt)}` is not `uniform < alpha`: a flipped or non-strict comparison accepts with the wrong probability (or accepts -inf likelihoods)", key="accept-comparison")
+        fresh = all(lk.node is not None and lk.node.loops or _called_in_loop(ctx, lk.fi, base) for lk in links) and \
+            all(norm_text(lk.value.args[0]) in ("self.n_walkers", "len(self.u)", "self.u.shape[0]") for lk in links if lk.value.args)
+        R.check("C03.c", "the uniform is drawn fresh in every step, one per walker", fresh, links[0].fi, links[0].stmt if links[0].stmt is not None else nd.stmt,
+                msg=f"{m.short}: the comparison uniform `{unparse(links[0].value)}` is not drawn per step with one value per walker", key="fresh-uniform")
+        chain = _alpha_chain(ctx, m, nd, alpha)
+        if chain["status"] == "undecided":
+            raise AnalysisError(f"C03.c: acceptance probability not recognisable: {chain['why']} (shape so far {chain['shape']})")
+        R.check("C03.c", "alpha = min(1, exp(beta * (logL' - logL) + correction))", chain["status"] == "ok", m, nd.stmt,
+                msg=f"{m.short}: acceptance probability has the shape {chain['shape']}; {chain['why']}", witness={k: str(v) for k, v in chain.items()}, key="alpha-shape")
 
 
-def _alpha_chain(run: FuncInfo, flow, at, name: str) -> dict:
-    """Follow alpha's definitions backwards: each redefinition must be a
-    monotone wrapper (minimum(1, .), nan_to_num) until the exp(...)."""
-    out = {"ok": False, "shape": [], "why": ""}
-    cur_node = at
-    cur = name
+def _called_in_loop(ctx: Context, f: FuncInfo, base: ClassInfo) -> bool:
+    """f is a helper called from inside the kernel's step loop."""
+    for (cf, call) in ctx.cg.callers.get(f.qualname, []):
+        n = flow_of(cf.node).node_containing(call)
+        if n is not None and n.loops:
+            return True
+    return False
+
+
+def _alpha_chain(ctx: Context, fi: FuncInfo, at, expr: ast.expr) -> dict:
+    """Follow the acceptance probability backwards (through locals, extracted
+    helpers and parameters): monotone wrappers minimum(1, .) / nan_to_num(., nan=0)
+    down to exp(beta * (logl' - logl) + correction)."""
+    from ..chain import enter_call, unique_def
+
+    out = {"status": "undecided", "shape": [], "why": ""}
     seen_min = False
-    for _ in range(8):
-        ds = flow.reaching(cur_node, cur)
-        if len(ds) != 1 or ds[0].value is None:
-            out["why"] = f"`{cur}` has {len(ds)} definitions"
+    for _ in range(16):
+        if isinstance(expr, ast.Name):
+            link = unique_def(ctx, fi, at, expr.id)
+            if link is None:
+                out["why"] = f"`{expr.id}` in {fi.short} has no unique definition"
+                return out
+            fi, at, expr = link.fi, link.node, link.value
+            continue
+        if not isinstance(expr, ast.Call):
+            out["why"] = f"unrecognised step `{unparse(expr)[:60]}` in {fi.short}"
             return out
-        d = ds[0]
-        v = d.value
-        if isinstance(v, ast.Call):
-            fn = dotted(v.func).split(".")[-1]
-            if fn == "minimum" and len(v.args) == 2:
-                others = [a for a in v.args if const_value(a) in (1, 1.0)]
-                inner = [a for a in v.args if a not in others]
-                if len(others) == 1 and len(inner) == 1 and isinstance(inner[0], ast.Name):
-                    out["shape"].append("minimum(1, .)")
-                    seen_min = True
-                    cur, cur_node = inner[0].id, d.node
-                    continue
-                out["why"] = f"`{unparse(v)}` is not minimum(1, alpha)"
-                return out
-            if fn == "nan_to_num" and v.args and isinstance(v.args[0], ast.Name):
-                nanv = call_arg(v, None, "nan")
-                if nanv is not None and const_value(nanv) not in (0, 0.0):
-                    out["why"] = f"NaN acceptance mapped to {unparse(nanv)}"
-                    return out
-                out["shape"].append("nan_to_num(.)")
-                cur, cur_node = v.args[0].id, d.node
+        fn = dotted(expr.func).split(".")[-1]
+        ext = ctx.res.external_name(fi, expr) or ""
+        if ext.startswith("numpy.") and fn == "minimum" and len(expr.args) == 2:
+            others = [a for a in expr.args if const_value(a) in (1, 1.0)]
+            inner = [a for a in expr.args if a not in others]
+            if len(others) == 1 and len(inner) == 1:
+                out["shape"].append("minimum(1, .)")
+                seen_min = True
+                expr = inner[0]
                 continue
-            if fn == "exp" and v.args:
-                out["shape"].append("exp(.)")
-                arg = v.args[0]
-                terms = signed_terms(arg)
-                like = None
-                rest = []
-                for (sg, t) in terms:
-                    if isinstance(t, ast.BinOp) and isinstance(t.op, ast.Mult):
-                        fs = [t.left, t.right]
-                        b = [f for f in fs if norm_text(f) == "self.beta"]
-                        o = [f for f in fs if norm_text(f) != "self.beta"]
-                        if len(b) == 1 and len(o) == 1:
-                            dterms = signed_terms(o[0])
-                            pos = [norm_text(x) for (s2, x) in dterms if s2 * sg > 0]
-                            neg = [norm_text(x) for (s2, x) in dterms if s2 * sg < 0]
-                            if len(pos) == 1 and len(neg) == 1 and neg[0] == "self.logl" and pos[0] not in ("self.logl",) and "logl" in pos[0]:
-                                like = (pos[0], neg[0])
-                                continue
-                    rest.append((sg, t))
-                if like is None:
-                    out["why"] = f"exponent `{unparse(arg)}` does not contain self.beta * (logl_prime - self.logl)"
-                    return out
-                if len(rest) != 1 or rest[0][0] != 1 or not isinstance(rest[0][1], ast.Name):
-                    out["why"] = f"exponent `{unparse(arg)}` does not add exactly the kernel's correction term"
-                    return out
-                # the correction is the result of _compute_acceptance_factor(u_prime, logl_prime)
-                cds = flow.reaching(d.node, rest[0][1].id)
-                okc = len(cds) == 1 and isinstance(cds[0].value, ast.Call) and isinstance(cds[0].value.func, ast.Attribute) and "acceptance_factor" in cds[0].value.func.attr
-                if not okc:
-                    out["why"] = f"`{rest[0][1].id}` is not the kernel's correction"
-                    return out
-                out["ok"] = seen_min
-                out["why"] = "" if seen_min else "missing minimum(1, .)"
-                out["likelihood_term"] = like
+            out["status"], out["why"] = "bad", f"`{unparse(expr)}` is not minimum(1, alpha)"
+            return out
+        if ext.startswith("numpy.") and fn == "nan_to_num" and expr.args:
+            nanv = call_arg(expr, None, "nan")
+            if nanv is not None and const_value(nanv) not in (0, 0.0):
+                out["status"], out["why"] = "bad", f"NaN acceptance mapped to {unparse(nanv)}"
                 return out
-        out["why"] = f"unrecognised step `{unparse(d.stmt)[:60]}`"
+            out["shape"].append("nan_to_num(.)")
+            expr = expr.args[0]
+            continue
+        if ext in ("numpy.exp", "math.exp") and expr.args:
+            out["shape"].append("exp(.)")
+            arg = ExprResolver(fi.node).resolve(expr.args[0], at) if at is not None else expr.args[0]
+            raw_terms = signed_terms(expr.args[0])
+            like = None
+            rest = []
+            for (sg, t) in signed_terms(arg):
+                if isinstance(t, ast.BinOp) and isinstance(t.op, ast.Mult):
+                    fs = [t.left, t.right]
+                    b = [f for f in fs if norm_text(f) == "self.beta"]
+                    o = [f for f in fs if norm_text(f) != "self.beta"]
+                    if len(b) == 1 and len(o) == 1:
+                        dterms = signed_terms(o[0])
+                        pos = [norm_text(x) for (s2, x) in dterms if s2 * sg > 0]
+                        neg = [norm_text(x) for (s2, x) in dterms if s2 * sg < 0]
+                        if len(pos) == 1 and len(neg) == 1 and neg[0] == "self.logl" and pos[0] != "self.logl" and "logl" in pos[0]:
+                            like = (pos[0], neg[0])
+                            continue
+                rest.append((sg, t))
+            if like is None:
+                out["status"], out["why"] = "bad", f"exponent `{unparse(arg)[:80]}` does not contain self.beta * (logl_prime - self.logl)"
+                return out
+            # the remaining term: the kernel's correction (a name defined by the correction call, or the call itself)
+            corr_ok = False
+            if len(rest) == 1 and rest[0][0] == 1:
+                t = rest[0][1]
+                if isinstance(t, ast.Call) and isinstance(t.func, ast.Attribute) and "acceptance_factor" in t.func.attr:
+                    corr_ok = True
+                elif isinstance(t, ast.Name):
+                    # the unresolved name in the original expression
+                    names = [x for (sg2, x) in raw_terms if isinstance(x, ast.Name)]
+                    for nm in names or [t]:
+                        lk = unique_def(ctx, fi, at, nm.id)
+                        if lk is not None and isinstance(lk.value, ast.Call) and isinstance(lk.value.func, ast.Attribute) and "acceptance_factor" in lk.value.func.attr:
+                            corr_ok = True
+            if not corr_ok:
+                out["status"], out["why"] = "bad", f"exponent `{unparse(arg)[:80]}` does not add exactly the kernel's correction term"
+                return out
+            out["status"] = "ok" if seen_min else "bad"
+            out["why"] = "" if seen_min else "missing minimum(1, .)"
+            out["likelihood_term"] = like
+            return out
+        ent = enter_call(ctx, fi, expr)
+        if ent is not None:
+            out["shape"].append(f"{ent.fi.name}(.)")
+            fi, at, expr = ent.fi, ent.node, ent.value
+            continue
+        out["why"] = f"unrecognised step `{unparse(expr)[:60]}` in {fi.short}"
         return out
+    out["why"] = "chain too long"
     return out
 
 
